@@ -2708,22 +2708,40 @@ func c06R8(c *Ctx, r *Report) {
 		if !nodeCallsDeep(info, fn.Decl.Body, cm.Obj) || !nodeCallsDeep(info, fn.Decl.Body, bagAdd.Obj) {
 			continue
 		}
+		switch fn.Obj.Name() {
+		case "checkVarDecl", "checkAssignStmt", "validateCallArgumentTypes":
+			continue // the sites themselves
+		}
+		if nodeCalls(info, fn.Decl.Body, cm.Obj) == nil {
+			continue // the helper asks checkMutability itself
+		}
 		hasMap, hasArr := false, false
-		ast.Inspect(fn.Decl.Body, func(x ast.Node) bool {
-			if cc, ok := x.(*ast.CaseClause); ok {
-				for _, t := range caseTypes(info, cc) {
-					if nt := namedOf(t); nt != nil {
-						if nt.Obj().Name() == "MapType" {
-							hasMap = true
-						}
-						if nt.Obj().Name() == "ArrayType" {
-							hasArr = true
+		scan := func(f *Fn) {
+			ast.Inspect(f.Decl.Body, func(x ast.Node) bool {
+				if cc, ok := x.(*ast.CaseClause); ok {
+					for _, t := range caseTypes(f.Info(), cc) {
+						if nt := namedOf(t); nt != nil {
+							if nt.Obj().Name() == "MapType" {
+								hasMap = true
+							}
+							if nt.Obj().Name() == "ArrayType" {
+								hasArr = true
+							}
 						}
 					}
 				}
+				return true
+			})
+		}
+		scan(fn)
+		// the type test may live in a predicate of its own (one level)
+		for _, cl := range callsIn(fn.Decl.Body, false) {
+			if g := callee(info, cl); g != nil && g.Pkg() == fn.Obj.Pkg() && g != fn.Obj {
+				if gf := c.FnOf(g); gf != nil && gf.Decl != nil && gf.Decl.Body != nil {
+					scan(gf)
+				}
 			}
-			return true
-		})
+		}
 		if hasMap && hasArr {
 			helper = fn
 		}
